@@ -6,7 +6,9 @@ from .c05 import corpus_requests
 RULE = ("`slice <width> <ops> <msb> <lsb>`: a parent signal is recorded through the real store (VCD-text or pre-encoded GHW-style writes, mixes of 2/4/9-state values), "
         "loaded, and cut with signals::slice_signal (hook re-export); real code (release AND debug-assertion profile) vs Lean Slice model vs the spec (substring of the parent's "
         "symbols, canon, minimal kind). Quick: parent widths 2..40 x ALL sub-ranges [hi:lo] (exhaustive) x state mixes; random wider parents to 130. "
-        "non-trivial = the slice has at least one change; distinct = distinct (request, reply)")
+        "Plus generated GHW files rich in sub-range aliases (`ghw <design> <bytes>`, the three-way comparison of C11: several sub-ranges of one parent, sharing their left or "
+        "right bound, nested and overlapping), so that the alias lookup of the GHW loader (find_or_add_alias / register_bit_vec) is covered under this property too. "
+        "non-trivial = the slice has at least one change / the file loads; distinct = distinct (request, reply)")
 
 
 def parent_ops(rng, w, raw, mix):
@@ -58,6 +60,10 @@ def requests(ctx):
         lo = rng.randint(0, hi)
         if hi - lo + 1 < w:
             rq.append(f"slice {w} {ops} {hi} {lo}")
+    from . import ghwgen
+    for _ in range(200 if quick else 2500):
+        d, data = ghwgen.gen_case(rng, nitems=rng.choice([4, 8, 12]), nsteps=rng.choice([3, 6]), alias_prob=0.7, allow_structs=False)
+        rq.append(f"ghw {d} {data.hex()}")
     return rq
 
 
@@ -74,7 +80,7 @@ def run(ctx):
             if binary is None:
                 continue
             impl = [("panic" if l.startswith("panic") else l) for l in ctx.impl(rq, tag="impl_" + tag, binary=binary)]
-            core.compare_streams(res, rq, impl, model, is_nontrivial=lambda r, i: "=" in i,
+            core.compare_streams(res, rq, impl, model, is_nontrivial=lambda r, i: "=" in i or (r.startswith("ghw") and i.startswith("S(")),
                                  label=f"Slice model ~ slice_signal ({tag} profile)", sample_every=max(1, len(rq) // 6))
             res.count("requests_" + tag, len(rq))
     return core.finish(res, proof, rule=RULE, exhaustive=True,
